@@ -20,7 +20,7 @@ RULE = ('Generated: rule-conforming antennas (free space / ideal ground, 0.1..10
 BUDGET = {'quick': {'examples': 1200, 'wall': 200}, 'thorough': {'examples': 40000, 'wall': 1500}}
 ASSUMPTIONS = ['feed impedance differences are compared with tolerance 1e-8 * cond(Z) relative',
                'skin effect: exact Bessel reference (mpmath); for |k a| >= 110 the documented asymptote is allowed 5e-3']
-LABEL_FLOORS = {'several-statements-incl-whole-object': 0.05, 'scn-feed': 0.2, 'scn-dist': 0.2, 'scn-noop': 0.1, 'load-on-junc': 0.05, 'load-on-gnd': 0.03,
+LABEL_FLOORS = {'several-statements-incl-whole-object': 0.05, 'pulse-named-twice-by-one-load': 0.01, 'scn-feed': 0.2, 'scn-dist': 0.2, 'scn-noop': 0.1, 'load-on-junc': 0.05, 'load-on-gnd': 0.03,
                 'rlc-all-three': 0.03, 'skin+ins-same-wire': 0.03, 'dist-by-tag': 0.05}
 
 
@@ -52,19 +52,26 @@ def case_strategy(draw, big=False):
         lds = []
         free_objs = list(objs_with)
         taken = set()
+        # "If a pulse is loaded twice, loads appear to be in series" (README): in a third of the cases the statements
+        # of one load may name a pulse more than once
+        overlap = draw(st.integers(0, 2)) == 0
+        case['overlap'] = overlap
         for i in range(draw(st.integers(1, 2))):
             l = draw(gen.lumped_load(kinds=('z', 'z', 'rlc', 'trap')))
             at = []
             for j in range(draw(st.integers(2, 3))):
                 form = draw(st.sampled_from(['all-obj', 'all-obj', 'abs', 'obj']))
                 cand_o = [o_ for o_ in free_objs if not any(p.idx in taken for p in topo.per_obj[o_])]
+                if overlap:
+                    cand_o = list(objs_with)
                 if form == 'all-obj' and cand_o:
                     o_ = draw(st.sampled_from(cand_o))
-                    free_objs.remove(o_)
+                    if o_ in free_objs:
+                        free_objs.remove(o_)
                     taken.update(p.idx for p in topo.per_obj[o_])
                     at.append({'all': True, 'tag': objs[o_]['tag']})
                 else:
-                    cand_p = [p for p in topo.pulses if p.idx not in taken]
+                    cand_p = [p for p in topo.pulses if overlap or p.idx not in taken]
                     if not cand_p:
                         continue
                     p = draw(st.sampled_from(cand_p))
@@ -220,11 +227,28 @@ def check(case):
                     idx.append(topo.per_obj[w][a['k']].idx)
                 else:
                     idx.append(a)
-            la['attach'] = list(idx)
+            la['attach'] = sorted(set(idx))
+            la['_mult'] = idx
             want.append(idx)
             if len(l['attach']) >= 2 and any(isinstance(a, dict) and a.get('all') for a in l['attach']):
                 labels.append('several-statements-incl-whole-object')
         alt.pop('attach_perm', None)
+        # a pulse named k times by one load carries that load k times (in series): in the comparison model the
+        # repetitions are separate, identical loads
+        extra = []
+        for la in alt['loads']:
+            idx = la.pop('_mult')
+            k_ = 1
+            while True:
+                more = sorted(set(i for i in idx if idx.count(i) > k_))
+                if not more:
+                    break
+                extra.append(dict({k2: v2 for k2, v2 in la.items()}, attach=more))
+                k_ += 1
+        if extra:
+            labels.append('pulse-named-twice-by-one-load')
+            # same kinds stay together (the option file groups loads by kind)
+            alt['loads'] = alt['loads'] + extra
         # every loaded pulse carries its load exactly once: the matrix diagonal rises by the weight of the pulse
         # times the load value, and the model equals the one with pulse-by-pulse attachment
         npulses = sorted(p_.idx for ld_ in m.loads for p_ in ld_.pulses)
